@@ -1,4 +1,33 @@
 import FranzVerif.Model.Consumer
-/-! C04 — theorems being written (branch prop/CONS). -/
+import FranzVerif.Proof.Consumer
+/-! C04 — a direct consumer returns each record once, in offset order. Theorems over ALL accepted
+histories of `Model.Consumer`; the tie is the history correspondence of the `cons` scenarios. -/
 namespace Props.C04
+open Model.Consumer Proof.Consumer
+
+/-- In every accepted history the offsets returned for a partition strictly increase: nothing is
+returned twice and nothing out of order, across any number of polls. -/
+theorem returned_offsets_strictly_increase (c : Cfg) (h : List Ev) (s : St) (hacc : run c {} h = some s) (part : Nat) :
+    (returnedOffsets part h).Pairwise (· < ·) := by
+  sorry
+
+/-- Nothing before the start position is returned. -/
+theorem nothing_before_start (c : Cfg) (h : List Ev) (s : St) (hacc : run c {} h = some s) :
+    ∀ r ∈ returnedOf h, c.start ≤ r.2.1 := by
+  sorry
+
+/-- At a quiescent point every returned data record is an acknowledged record at its acknowledged partition and offset. -/
+theorem returned_records_are_acknowledged (c : Cfg) (h : List Ev) (s : St) (hacc : run c {} (h ++ [Ev.quiesce]) = some s) :
+    ∀ r ∈ returnedOf h, r.2.2.2 = false → ∃ txn, (r.2.2.1, r.1, r.2.1, txn) ∈ producedOf h := by
+  sorry
+
+/-- Completeness under read_uncommitted: at a quiescent point of a complete scenario every acknowledged
+record at or after the start position has been returned, exactly once. -/
+theorem every_record_returned_exactly_once (c : Cfg) (h : List Ev) (s : St) (hacc : run c {} (h ++ [Ev.quiesce]) = some s)
+    (hc : c.committed = false) (hcomplete : isIncomplete h = false)
+    (id : Id) (part off txn : Nat) (hp : (id, part, off, txn) ∈ producedOf h) (hoff : c.start ≤ off) :
+    ((returnedOf h).filter (fun r => r.1 == part && r.2.1 == off)).length = 1 ∧
+    ∃ ctl, (part, off, id, ctl) ∈ returnedOf h := by
+  sorry
+
 end Props.C04
